@@ -3,12 +3,13 @@ from lib import semcheck, progs
 from lib.semcheck import impl, model_expr, oracle, describe, shrink, IMPORTS
 
 ID = 'C06'
-THEOREMS = []
-CASE_TIMEOUT = 20
+THEOREMS = ['C06_control_code_correct', 'C06_control_correct_flags', 'C06_compile_body_total', 'C06_compiled_program_computes_reference', 'C06_or_spec', 'C06_ite_spec', 'C06_if_no_else_spec', 'C06_not_spec', 'C06_neg_binds_nothing', 'C06_and_spec']
+CASE_TIMEOUT = 60
+MODEL_NEEDS_IMPL = True
 COQ_CHUNK = 20
 RULE = ('random programs whose bodies nest ;, ->, -> without else and \\+ to depth 4 around calls with 0-3 solutions, =, \\=, true, fail and '
-        'cuts in branches, followed by continuation goals; 10% of the programs also put a cut inside a condition or under \\+ (the recorded '
-        'finding KF-C06-1: such cases are classified, not reported). Compared as C01. Non-trivial: the program contains ;, -> or \\+ and some '
+        'cuts in branches, followed by continuation goals; a third of the programs also put cuts inside conditions and under \\+ (local to the '
+        'condition; the former finding KF-C06-1, repaired by /repo commit 64ae898). Compared as C01. Non-trivial: the program contains ;, -> or \\+ and some '
         'query has an answer.')
 TRUSTED_BASE = []
 
@@ -16,7 +17,7 @@ def gen(rng, tier):
     n = 240 if tier == 'quick' else 5000
     cases = []
     for _ in range(n):
-        o = progs.Opts(control=True, cut=rng.random() < 0.5, opaque_cut=rng.random() < 0.2, builtins=False, deep=rng.random() < 0.3)
+        o = progs.Opts(open_leaves=0.5 if rng.random() < 0.2 else 0.0, control=True, cut=rng.random() < 0.5, opaque_cut=rng.random() < 0.6, builtins=False, deep=rng.random() < 0.3)
         p = progs.gen_program(rng, o)
         cases.append({'clauses': p['clauses'], 'queries': p['queries']})
     return cases
@@ -38,31 +39,22 @@ def builtin_corpus():
     prog([['p', [V('Y'), V('R')], ['or', ['if', ['and', call('q', V('Y')), ['not', call('=', V('Y'), A('a'))]], call('=', V('R'), A('then'))], call('=', V('R'), A('else'))]],
           ['n', [], ['not', ['and', call('q', V('Y')), ['not', call('=', V('Y'), A('a'))]]]]] + q3, [['p', [V('Q0'), V('Q1')]], ['n', []]])
     prog([['p', [V('R')], ['or', ['if', ['and', call('q', V('Y')), ['or', ['if', call('=', V('Y'), A('b')), ['true']], ['fail']]], call('=', V('R'), V('Y'))], call('=', V('R'), A('else'))]]] + q3, [['p', [V('Q0')]]])
+    # cuts inside conditions and under \\+ are local to the condition (D21 / former KF-C06-1, repaired)
+    m3 = [['m', [A('a')], ['true']], ['m', [A('b')], ['true']], ['m', [A('c')], ['true']], ['n', [A('b')], ['true']], ['n', [A('c')], ['true']]]
+    prog([['q', [], ['not', ['and', ['cut'], ['fail']]]]], [['q', []]])
+    prog([['r', [V('X')], ['or', ['if', ['and', ['cut'], ['fail']], call('=', V('X'), A('a'))], call('=', V('X'), A('b'))]]], [['r', [V('Q0')]]])
+    prog([['t', [V('X'), V('Y')], ['or', ['if', ['and', call('m', V('X')), ['and', ['cut'], call('n', V('X'))]], call('=', V('Y'), A('then'))], call('=', V('Y'), A('else'))]]] + m3, [['t', [V('Q0'), V('Q1')]]])
+    prog([['u', [V('X'), V('Y')], ['and', ['or', ['if', ['or', call('m', V('X')), ['and', ['cut'], call('=', V('X'), A('late'))]], call('=', V('Y'), A('t'))], call('=', V('Y'), A('e'))], call('m', V('X'))]]] + m3, [['u', [V('Q0'), V('Q1')]]])
+    prog([['w', [V('X'), V('Y')], ['and', call('m', V('X')), ['or', ['if', ['or', ['and', call('n', V('X')), ['cut']], call('=', V('X'), A('c'))], call('=', V('Y'), A('t'))], call('=', V('Y'), A('e'))]]]] + m3, [['w', [V('Q0'), V('Q1')]]])
+    prog([['x', [V('X')], ['or', ['if', ['and', ['or', ['if', call('m', V('X')), ['cut']], ['true']], call('=', V('X'), A('b'))], ['true']], call('=', V('X'), A('none'))]]] + m3, [['x', [V('Q0')]]])
+    prog([['y', [V('X')], ['and', ['not', ['not', ['and', call('m', V('X')), ['and', ['cut'], call('=', V('X'), A('b'))]]]], call('=', V('X'), A('free'))]]] + m3, [['y', [V('Q0')]]])
+    prog([['z', [V('X'), V('Y')], ['or', ['if', ['or', ['if', ['and', call('m', V('X')), ['cut']], call('n', V('X'))], ['true']], call('=', V('Y'), A('t'))], call('=', V('Y'), A('e'))]]] + m3, [['z', [V('Q0'), V('Q1')]]])
+    # a cut in the then/else branch is still a cut of the clause
+    prog([['k', [V('X')], ['and', call('m', V('X')), ['or', ['if', call('n', V('X')), ['cut']], ['true']]]], ['k', [A('last')], ['true']]] + m3, [['k', [V('Q0')]]])
     return L
-
-def _witness(k):
-    from lib.progs import V, A
-    if k == 0:
-        return {'clauses': [['q', [], ['not', ['and', ['cut'], ['fail']]]]], 'queries': [['q', []]]}
-    return {'clauses': [['r', [V('X')], ['or', ['if', ['and', ['cut'], ['fail']], ['call', '=', [V('X'), A('a')]]], ['call', '=', [V('X'), A('b')]]]]], 'queries': [['r', [V('Q0')]]]}
-
-def known_witness_cases(k):
-    return [_witness(0), _witness(1)] if k['id'] == 'KF-C06-1' else []
 
 def compare(case, io, mo):
     return semcheck.compare(case, io, mo)
-
-def classify_known(case, io, mo, known):
-    """KF-C06-1: the body has a cut inside a condition / under \\+, the implementation agrees with the model of
-    the compiled code, and that model differs from the SLD reference (in which such a cut is local)."""
-    if not isinstance(io, dict) or 'queries' not in io or mo is None:
-        return None
-    if not any(progs.has_opaque_cut(b) for _, _, b in case['clauses']):
-        return None
-    a, b, c = semcheck.compare_parts(case, io, mo)
-    if (not a) and b:
-        return 'KF-C06-1'
-    return None
 
 def nontrivial(case, io):
     if not isinstance(io, dict) or 'queries' not in io or not any(q['count'] >= 1 for q in io['queries']):
